@@ -87,6 +87,26 @@ pub fn get_variants(out: &mut Out, doc: &[u8], path: &[PathElem], wellformed: bo
             let fs = faststr::FastStr::new(s);
             emit("get_from_faststr_unchecked", res_span(fs.as_bytes(), guarded(|| unsafe { sonic_rs::get_from_faststr_unchecked(&fs, p.iter()) })), out);
         }
+        // "parses to the same value": the returned lazy value converted by its OWN accessors (escape
+        // status included), not by re-parsing its raw text
+        for (name, unchecked) in [("Value::try_from(get)", false), ("Value::try_from(get_unchecked)", true)] {
+            let r = guarded(|| {
+                let got = if unchecked { unsafe { sonic_rs::get_unchecked(doc, p.iter()) } } else { sonic_rs::get(doc, p.iter()) };
+                Ok::<_, String>(match got {
+                    // a string is read through as_str(), which trusts the escape status the skipper recorded
+                    Ok(lv) if lv.is_str() => match lv.as_str() {
+                        Some(s) => format!("ok:{}", dump::dump(&Value::from(s))),
+                        None => "as_str-none".to_string(),
+                    },
+                    Ok(lv) => match Value::try_from(lv) {
+                        Ok(v) => format!("ok:{}", dump::dump(&v)),
+                        Err(_) => "convert-error".to_string(),
+                    },
+                    Err(_) => "none".into(),
+                })
+            });
+            out.case("getdump", &[&pa, &h, name], &r.map(|x| x.unwrap_or_else(|e| e)).unwrap_or_else(|p| format!("panic:{p}")), nt);
+        }
         // pointer on lazy / owned-lazy / DOM values
         let r = guarded(|| {
             let root: LazyValue = sonic_rs::from_slice(doc).map_err(|_| "rootparse".to_string())?;
